@@ -259,6 +259,24 @@ def discharge(ctx, body, p, ev, kind):
                     if w and const_int(call_args(w[0])[1]) == const_int(hi[3]) and mentions(call_args(w[0])[0], lambda u: u == coll or (u[0] == "field" and coll[0] == "field" and u[3] == coll[3])):
                         return "G6-window-position-plus-window-size"
             return None
+        if last in ("index", "index_mut") and ("[T]" in nm or "Vec" in nm) and agg_variant(ev.args[1]) and agg_variant(ev.args[1])[1] in ("RangeTo", "RangeFrom", "Range"):
+            # byte/element slices cut at the collection's own length or at min(.., its length, ..): always in range
+            import lib as _lib
+            c0 = _lib.coll(ev.args[0])
+            a_ = agg_variant(ev.args[1])
+
+            def within(t):
+                t = strip_refs(t)
+                if const_int(t) == 0:
+                    return True
+                if length_of(t) is not None and length_of(t) == c0:
+                    return True
+                if is_call(t, "cmp::min", "Ord::min") and any(length_of(x) is not None and length_of(x) == c0 for x in call_args(t)[:2]):
+                    return True
+                return False
+            ends = list(a_[2])
+            if all(within(x) for x in ends) and (a_[1] != "Range" or const_int(strip_refs(ends[0])) == 0 or strip_refs(ends[0]) == strip_refs(ends[1])):
+                return "G6-slice-at-own-length"
         if last == "index" and "[T]" in nm:
             coll, rg = ev.args[0], ev.args[1]
             a = agg_variant(rg)
